@@ -9,7 +9,9 @@ PLAIN = ["a", " ", "\n", "\n\n", "\t", "\r"]
 LINESTART = ["\n*", "\n#", "\n:", "\n;", "\n ", "\n----", "\n==", "==\n", "\n===", "{|", "\n{|", "\n|}", "\n|-", "\n|", "||", "\n!", "!!", "\n|+"]
 INLINE = ["''", "'''", "'''''", "''''", "''''''", "[[", "]]", "[", "]", "{{", "}}", "{{{", "}}}", "=", "|", ":"]
 URLS = ["http://x.y", "[http://x.y", "//x.y", "mailto:a@b"]
-ENTITIES = ["&amp;", "&#65;", "&#x41;", "&#99999999999;", "&#xD800;", "&#0;", "&#x110000;", "&bogus;"]
+ENTITIES = ["&amp;", "&#65;", "&#x41;", "&#99999999999;", "&#xD800;", "&#0;", "&#x110000;", "&bogus;",
+            # what only looks like a numeric reference (the scanner does not take it for one, the entity decoder of nowiki/pre bodies does)
+            "&#xyz;", "&#12ab;", "&#x;", "&#-5;"]
 HTML_TAGS = ["b", "i", "u", "s", "small", "sup", "sub", "span", "div", "center", "blockquote", "p", "ul", "ol", "li", "dl", "dt",
              "dd", "table", "tr", "td", "th", "caption", "h2", "br", "hr", "code", "tt", "font", "abbr", "references", "inputbox"]
 EXT_TAGS = ["nowiki", "pre", "math", "source", "syntaxhighlight", "timeline", "gallery", "imagemap", "poem", "ref", "pages",
@@ -89,6 +91,11 @@ CTX = [
     ("indent-table-cell", ":{|\n|-\n| outer\n%s\n|}\n"),
     ("deflist-desc", "; t\n: %s\n"),
     ("pre-in-indent-table", ":{|\n|-\n| a\n  pre %s text\n|}\n"),
+    # inside the extension tags whose body gets a treatment of its own (entity decoding, no markup)
+    ("nowiki", "a<nowiki>%s</nowiki>b"),
+    ("pre-tag", "<pre>%s</pre>"),
+    ("source", "<source lang=c>%s</source>"),
+    ("math", "<math>%s</math>"),
 ]
 
 # --- TU: template universes behind the page ("with arbitrary template pages")
